@@ -1,7 +1,7 @@
 ------------------------------ MODULE TV_Style ------------------------------
 (* Batch trace validator: every step recorded from real magpylib styles is judged by the operators of Style. *)
 (* Input (ndjson, IOEnv.TRACE_FILE): one line per case (one real leaf, one history from a fresh state)       *)
-(*   {"case", "cls", "leaf", "carries", "checkfresh": bool,                                                  *)
+(*   {"case", "cls", "leaf", "mleaf" (real names of l and m), "checkfresh": bool,                            *)
 (*    "clsof": {obj: class}, "has": {obj: {leaf: bool}}, "fhas": {family: {leaf: bool}},                     *)
 (*    "def0": {family: {leaf: val}},  "init": <state>,                                                       *)
 (*    "steps": [{"tid", "op", "tgt", "src", "l", "v", "kw": {leaf: val}, "badname": bool, "notation",        *)
@@ -20,6 +20,9 @@ Seqify(s) == [i \in 1..Len(s) |-> s[i]]
 CxOf(e) == [chain |-> [o \in DOMAIN e.clsof |-> ClassChain[e.clsof[o]]], has |-> e.has, fhas |-> e.fhas, def0 |-> e.def0]
 CallOf(s) == [op |-> s.op, tgt |-> s.tgt, src |-> s.src, l |-> s.l, v |-> s.v, kw |-> s.kw, badname |-> s.badname]
 ResLeaves == {"l", "m"}
+
+\* copy() documents that it gives the copy a new label (suffix): the label is the one leaf a copy does not carry
+Carries(e) == e.leaf # "label" /\ e.mleaf # "label"
 
 \* which families differ from the library defaults (context of a failed reset)
 NotRestored(post, cx) == {f \in DOMAIN post.def : post.def[f] # cx.def0[f]}
@@ -60,10 +63,10 @@ PreOf(e, k) == IF k = 1 THEN e.init ELSE e.steps[k - 1].post
 BadOf(i) == LET e == Trace[i]
                 cx == CxOf(e)
                 steps == e.steps
-            IN {<<steps[k].tid, Verdict(PreOf(e, k), cx, e.carries, k = 1 /\ e.checkfresh, steps[k]), steps[k].op, steps[k].notation, steps[k].outcome,
+            IN {<<steps[k].tid, Verdict(PreOf(e, k), cx, Carries(e), k = 1 /\ e.checkfresh, steps[k]), steps[k].op, steps[k].notation, steps[k].outcome,
                   e.cls, e.leaf, steps[k].tgt,
                   IF steps[k].op = "Reset" THEN NotRestored(steps[k].post, cx) ELSE {}>> :
-                   k \in {k \in 1..Len(steps) : Verdict(PreOf(e, k), cx, e.carries, k = 1 /\ e.checkfresh, steps[k])[1] # "ok"}}
+                   k \in {k \in 1..Len(steps) : Verdict(PreOf(e, k), cx, Carries(e), k = 1 /\ e.checkfresh, steps[k])[1] # "ok"}}
 RECURSIVE CountRange(_, _)     \* divide and conquer: recursion depth log(n)
 CountRange(lo, hi) == IF lo > hi THEN 0 ELSE IF lo = hi THEN Len(Trace[lo].steps)
                       ELSE LET mid == (lo + hi) \div 2 IN CountRange(lo, mid) + CountRange(mid + 1, hi)
